@@ -39,3 +39,18 @@ Theorem until_connective_never_fires_refuted :
   exists s, In [1; 1; 4]%Z (run_scenario 6000 200000 s) /\ In [5; 1; 2]%Z (run_scenario 6000 200000 s) /\
             In [5; 1; 3]%Z (run_scenario 6000 200000 s).
 Proof. exists sc_d4b. rewrite run_d4b. unfold trace_d4b. cbn. tauto. Qed.
+
+(** D26 (C12): a task spawned into an outer scope borrows 2 from a share of 3 and outlives the share's block.  When the
+    block is left at time 1 the whole share goes back: the supply reads its full level 4 (event [1; 30; 0; 4]) and a
+    claim of all 4 succeeds at time 1 (log 4) although the nested borrower is still inside its block until time 10
+    (log 1 at time 10). *)
+Definition sc_d26 : scenario := {| sc_start := (Fin (0)%Z); sc_till := None; sc_roots := [[(SScope 1 [(SBorrow 0 (3)%Z false 101 [(SDo 1 1 StartNow false [(SBorrow 101 (2)%Z false 102 [(SAwait (WDelay (Fin (10)%Z))); (SLog (1)%Z)]); (SLog (2)%Z)]); (SAwait (WDelay (Fin (1)%Z))); (SLog (3)%Z)]); (SLevel 0); (SBorrow 0 (4)%Z true 103 [(SLog (4)%Z)]); (SLevel 0); (SAwait (WDelay (Fin (20)%Z))); (SLevel 0)])]]; sc_nflags := 1; sc_tracked := [(0)%Z]; sc_nlocks := 1; sc_nqueues := 1; sc_nchans := 1; sc_res := [(false, (4)%Z)] |}.
+Definition trace_d26 : list (list Z) :=
+  [[1; 1; 3]; [1; 30; 0; 4]; [1; 1; 4]; [1; 30; 0; 4]; [10; 1; 1]; [10; 1; 2]; [21; 30; 0; 4]; [21; 90];
+   [21; 95; 0; 0; 0; 0; 0; 0; 0; 0; 0; 0; 4]]%Z.
+Lemma run_d26 : run_scenario 6000 200000 sc_d26 = trace_d26.
+Proof. vm_compute. reflexivity. Qed.
+Theorem share_outlived_by_nested_borrower_refuted :
+  exists s, In [1; 30; 0; 4]%Z (run_scenario 6000 200000 s) /\ In [1; 1; 4]%Z (run_scenario 6000 200000 s) /\
+            In [10; 1; 1]%Z (run_scenario 6000 200000 s).
+Proof. exists sc_d26. rewrite run_d26. unfold trace_d26. cbn. tauto. Qed.
